@@ -993,10 +993,13 @@ async fn build_authoritative_response(
             message.additionals.extend(adds.iter().cloned());
         }
 
+        // An NS RRset owned by a name other than the query name can only be the NS RRset of a
+        // zone cut above the query name: that is a referral whatever the query type is.
         let is_referral = lookup_records.iter().next().is_some_and(|r| {
             r.record_type() == RecordType::NS
-                && query.query_type() != RecordType::NS
-                && query.query_type() != RecordType::ANY
+                && (LowerName::from(&r.name) != *query.name()
+                    || (query.query_type() != RecordType::NS
+                        && query.query_type() != RecordType::ANY))
         });
 
         if is_referral {
